@@ -245,7 +245,10 @@ def run_shard(shard):
                                                  # amounts far beyond the supported range of years of a date
                                                  {"hours": 10 ** 8}, {"hours": -(10 ** 8) - 1}, {"minutes": 10 ** 10 + 1},
                                                  {"seconds": -(10 ** 12) - 1}, {"microseconds": 10 ** 18 + 1},
-                                                 {"hours": 10 ** 8, "minutes": -(10 ** 10), "seconds": 10 ** 12, "microseconds": -1}]
+                                                 {"hours": 10 ** 8, "minutes": -(10 ** 10), "seconds": 10 ** 12, "microseconds": -1},
+                                                 # fractional (dyadic) amounts on either side of the carry thresholds
+                                                 {"minutes": 61.25}, {"minutes": -1500.75}, {"hours": 23.5}, {"hours": -47.25},
+                                                 {"minutes": 59.5, "seconds": 60}, {"hours": 0.5, "minutes": -0.5}]
     if shard["kind"] == "arith":
         for u in shard["times"]:
             acc.c["states"] += 1
